@@ -560,4 +560,15 @@ PARTS["recv"] = dict(
                                "only what reaches the packet handler is observable at this level (drop / inbound / unrecognized frame), not the stage that dropped a datagram: a drop must be justified by the IP stage (unless the IP is permitted) or by the node stage (a named, not permitted node id)",
                                "a source a response is expected from (filter_expected_responses) is solicited: nothing is demanded of its datagrams here"],
 )
-PROPS["C18"] = dict(parts=[dict(name="limiter"), dict(name="filter"), dict(name="recv")])
+# the handler's periodic unban check (every 300 s): part of "banned for at least the configured duration"
+PARTS["handler_unban"] = dict(
+    component="handler", spec="MC_Handler.tla", mc={"quick": [], "thorough": []}, goals_cfg=None, goals=[],
+    sim={"quick": [], "thorough": []}, drive={"quick": 0, "thorough": 0},
+    fixed_behaviours=[[{"k": "Reset", "retries": 1, "cap": 4, "sess_ttl": 3}, {"k": "Bans"}, {"k": "Advance", "ticks": 3010}, {"k": "Advance", "ticks": 3010}, {"k": "Quiesce"}]],
+    trace="Trace_Handler.tla", mon_cfg="Trace_Handler_mon.cfg", strict_cfg=None,
+    formulas={"C18.UnbanTimer": "C18"},
+    interesting=lambda e: e["in"]["k"] in ("Bans", "Advance"),
+    required=lambda events: [] if any("ip:perm" in e.get("bans", []) for e in events) and any(e["in"]["k"] == "Advance" and "ip:past" not in e.get("bans", []) for e in events) else ["unban check ran"],
+    assumptions=["the real Handler::start loop on a paused tokio clock: its 300 s unban interval fires on Advance; ban instants are std::time instants set relative to now"],
+)
+PROPS["C18"] = dict(parts=[dict(name="limiter"), dict(name="filter"), dict(name="recv"), dict(name="handler_unban")])
